@@ -216,7 +216,54 @@ let check_fields f inp obs =
           match String.split_on_char ':' b with [v; l] -> v ^ v ^ ":" ^ l | _ -> b) (String.split_on_char ',' bits)) in
         oo' ^ " " ^ bits'
       | _ -> obs) in
+    let auths_l = ints auths in
+    let big = N.compare (n_of_hex fnum) (n_of_hex "100000000") <> Lt in
+    if new_voter_set ws = None || big then begin
+      (* third round: no voter set (empty authority list) or a finalized number beyond 32 bits: the
+         entry point must REJECT (an error), in every order; neither accept nor panic *)
+      let base' = n_of_hex base and parents' = ints parents in
+      let hs = List.map (fun b -> tree_hdr base' parents' b) (ints headers) in
+      let raw = List.map (fun s -> match String.split_on_char '.' s with
+        | [i; b; nm; _] -> (n_of_hex i, n_of_hex b, n_of_hex nm)
+        | _ -> fail "C19: bad precommit %s" s) (split ',' pcs) in
+      let (oo, bits) = (match split_ws obs with [a; b] -> (a, b) | _ -> ("?", "-")) in
+      let bl = List.map (fun b -> match String.split_on_char ':' b with
+        | [v; l] -> (v = "1", n_of_hex l) | _ -> (false, N0)) (split ',' bits) in
+      let outs = String.split_on_char ';' oo in
+      let orders = perms ps (List.length raw) in
+      if List.length bl <> List.length raw || List.length outs <> List.length orders then
+        { prop_ok = true; model_eq = false; nontrivial = false; finding = "-"; tags = "vb,bad-observation"; detail = obs }
+      else begin
+        let pcs0 = List.map2 (fun (i, b, nm) (ok, l) -> { p_hash = b; p_num = nm; p_id = i; p_sig = l; p_ok = ok }) raw bl in
+        let bo_str = function BNoVoters -> "noauth" | BPanic -> "panic" | BOut o -> jo_str o in
+        let run f p = bo_str (f auths_l hs (n_of_hex fblk) (n_of_hex fnum) (n_of_hex tblk) (n_of_hex tnum) (permute pcs0 p)) in
+        let models = List.map (run verify_block_justification) orders in
+        let prefixes = List.map (run verify_block_justification_prefix) orders in
+        let prop = List.for_all (fun o -> o <> "ok" && o <> "panic" && o <> "?") outs in
+        let eq = (models = outs) in
+        { prop_ok = prop; model_eq = eq; nontrivial = true; finding = "-";
+          tags = String.concat "," (["vb"; "vb-" ^ List.hd models]
+                   @ (if big then ["vb-finalized-number-beyond-32-bits"] else ["vb-no-voter-set"]));
+          detail = (if prop && eq then "" else
+            Printf.sprintf "impl=%s model=%s%s" (List.hd outs) (List.hd models)
+              (if prefixes = outs then " (implementation behaves as the pre-fix code: "
+                 ^ (if big then "the finalized number is compared modulo 2^32)" else "the nil voter set is dereferenced)") else "")) }
+      end
+    end else
     just_case "vb" ws base parents headers fblk fnum tblk tnum pcs ps obs'
+  | ["pl"; st; h; num; round; setid] ->
+    (match split_ws obs with
+     | [h32; i32; h64; i64] ->
+       let m nw num' = hex_of_bytes (vote_payload (nat_of_int nw) (n_of_hex st) (bytes_of_hex h) num'
+                                       (n_of_hex round) (n_of_hex setid)) in
+       let num32 = (let s = hex_of_n (n_of_hex num) in
+                    n_of_hex (if String.length s > 8 then String.sub s (String.length s - 8) 8 else s)) in
+       let m32 = m 4 num32 and m64 = m 8 (n_of_hex num) in
+       (* prop: the implementation's encoder yields the bytes of the Coq definition at both widths *)
+       { prop_ok = (i32 = m32 && i64 = m64); model_eq = (h32 = m32 && h64 = m64); nontrivial = true; finding = "-";
+         tags = "pl,pl-stage-" ^ st;
+         detail = (if i32 = m32 && i64 = m64 && h32 = m32 && h64 = m64 then "" else "model32=" ^ m32 ^ " model64=" ^ m64) }
+     | _ -> { prop_ok = true; model_eq = false; nontrivial = false; finding = "-"; tags = "pl,bad-observation"; detail = obs })
   | _ -> fail "C19: bad input %s" inp
 
 (* `vg` = `vc` + the hash labels of the blocks; `vj` / `vb` may carry a header salt: neither is an
